@@ -92,7 +92,13 @@ fn digests(restricted: bool, kmax: usize) -> BTreeMap<String, String> {
     let kpub = KeyPub { alg: Alg::EcP256, raw };
     let mut cs2 = cs;
     if restricted {
+        // the crypto-less build cannot derive a key identifier; requests do not carry one, but the parameters must be constructible
         cs2.base.st.key_id = KeyIdSpec::Pre(vec![0x0c, 0x16]);
+        for d in cs2.dims.iter_mut() {
+            if d.name == "key_id" {
+                d.values.retain(|(l, _)| l.contains("pre") || l == "default");
+            }
+        }
     }
     explore_levels(&sec, &cs2, kmax, &|c, choice| {
         let ev = eval_csr(&c.st, &c.attrs, &key, &kpub);
